@@ -57,7 +57,7 @@ Section Erase.
 
   Lemma body_erase st n : snd (body_t vt s rect st n) = body vt s rec st n.
   Proof.
-    unfold body_t, body, get_singleton_t.
+    unfold body_t, body_with, body, get_singleton_t.
     destruct (get_singleton s st n true) as [[st1 [v|]]|k st1]; [reflexivity| |reflexivity].
     destruct (begin_create (reg st1) n) as [r1 [v|]]; [reflexivity|].
     rewrite <- create_erase. destruct (create_t vt s rect (set_reg st1 r1) n) as [o1 [[st2 v]|[e| |] st2]]; reflexivity.
@@ -377,8 +377,9 @@ End ProtoRec.
 Section ProtoBody.
   Variable vt : variant.
   Variable s : scenario.
-  Variable rect : fstate -> name -> tres (fstate * ver).
-  Hypothesis Hgood : forall st d stk, Cov stk (reg st) -> good vt pj2 stk (reg st) (rect st d).
+  (* any creation function that, entered with its own name on top of the open creations, behaves *)
+  Variable crt : fstate -> name -> tres (fstate * ver).
+  Hypothesis Hcrt : forall st n stk, Cov stk (reg st) -> good vt pj2 (n :: stk) (reg st) (crt st n).
 
   Lemma get_singleton_none st n early st1 :
     get_singleton s st n early = Ok (st1, None) -> st1 = st /\ get_lookup (reg st) n early = Miss.
@@ -401,9 +402,9 @@ Section ProtoBody.
   Lemma strict_enderr stk n fl out : exists fl', strict_run (n :: stk) fl [(OEndErr n, out)] = Some (stk, fl').
   Proof. cbn [strict_run proto_step fst]. rewrite Nat.eqb_refl. destruct fl; eexists; reflexivity. Qed.
 
-  Lemma body_good st n stk : Cov stk (reg st) -> good vt pj2 stk (reg st) (body_t vt s rect st n).
+  Lemma body_with_good st n stk : Cov stk (reg st) -> good vt pj2 stk (reg st) (body_with vt s crt st n).
   Proof.
-    intros HS. unfold body_t.
+    intros HS. unfold body_with.
     pose proof (get_singleton_good vt s stk st n true) as H0. unfold get_singleton_t in H0 |- *.
     match goal with |- context [OGet n true ?f] => set (fo := f) in * end.
     destruct (get_singleton s st n true) as [[st1 [v|]]|k st1] eqn:EG.
@@ -418,9 +419,9 @@ Section ProtoBody.
       assert (Hstep : rstep vt (reg st) (OBegin n) = (r1, RVal None None)).
       { cbn [rstep]. unfold begin_create. rewrite HL1. reflexivity. }
       assert (HS1 : Cov stk (reg (set_reg st r1))) by (intros m Hm; exact (HS m Hm)).
-      pose proof (create_good vt s rect Hgood (set_reg st r1) n stk HS1) as H1. cbn [reg set_reg] in H1.
+      pose proof (Hcrt (set_reg st r1) n stk HS1) as H1. cbn [reg set_reg] in H1.
       assert (Hm01 : mono (reg st) r1) by (intros m Hm; exact Hm).
-      destruct (create_t vt s rect (set_reg st r1) n) as [o1 [[st2 v]|k st2]].
+      destruct (crt (set_reg st r1) n) as [o1 [[st2 v]|k st2]].
       + (* the creation succeeded: publish *)
         destruct H1 as [Hr1 [Hm1 Hs1]]. cbn [fst snd rreg pj2] in Hr1, Hm1, Hs1.
         apply (good_seq vt pj2 pj2 stk (reg st) [OGet n true fo] (st, None)
@@ -456,7 +457,8 @@ Theorem do_get_good vt s : forall fuel st n stk,
 Proof.
   induction fuel as [|f IH]; intros st n stk HS; cbn [do_get_t].
   - apply good_nil_fail. reflexivity.
-  - apply body_good; [intros st0 d stk0 H0; apply IH; exact H0|exact HS].
+  - unfold body_t. apply body_with_good; [|exact HS].
+    intros st0 n0 stk0 H0. apply create_good; [intros st1 d stk1 H1; apply IH; exact H1|exact H0].
 Qed.
 
 (* ---- a whole start -------------------------------------------------------------------------------------- *)
